@@ -1,143 +1,1 @@
-(* C19 - an RDF Collection behaves like the Python list it represents.
-   Property theorems only; proofs are in Collection/Proofs.v.
-   The unrestricted statement is FALSE for the code as it is (findings F3b, F3d,
-   F3e, F3g, F3c: the *_refuted theorems below give the witnesses); what holds
-   is proved for every history that stays outside the trigger regions
-   ([kf_op xs o = 0], a condition on the Python list and the operation only). *)
-From RV Require Import Collection.Model Collection.Proofs Collection.Reads.
-
-(* [Inv s xs]: the graph of state s is duplicate-free and its rdf:first/rdf:rest
-   triples are exactly a chain HEAD -> ... -> rdf:nil carrying xs (no triple at
-   all when xs = []), cells pairwise distinct, none of them rdf:nil, all below
-   the counter that stands for BNode(). *)
-
-(* the initial state of every case in scope satisfies the invariant *)
-Theorem C19_init_represents : forall c, wfb c = true -> Inv (init_st c) (c_init c).
-Proof. exact init_Inv. Qed.
-Print Assumptions C19_init_represents.
-
-(* refinement, one operation: outside the trigger regions every operation
-   returns what the Python list returns (index() of an absent item: raises),
-   and leaves a state that again represents the list's new value, whose chain
-   is well-formed and whose iteration yields exactly the list *)
-Theorem C19_refines_partial : forall s xs o, Inv s xs -> kf_op xs o = 0%N ->
-  let '(s', r) := c_step HEAD s o in
-  let '(xs', e) := lstep xs o in
-  Inv s' xs' /\ WF (gr s') HEAD xs' /\ c_iter (gr s') HEAD = RList xs' /\
-  (match o, e with OIndex _, RExc _ => is_exc r = true | _, _ => r = e end).
-Proof. exact refines_step. Qed.
-Print Assumptions C19_refines_partial.
-
-(* refinement, whole histories, in the form the conformance check evaluates:
-   for any starting list, noise triples and history without a trigger the
-   model's observations (result, list(c), len(c), every c[i], all triples after
-   every operation) pass the specification checker *)
-Theorem C19_spec_ok_model : forall c, wfb c = true -> kf c = 0%N -> spec_ok c (model_obs c) = true.
-Proof. exact spec_ok_model. Qed.
-Print Assumptions C19_spec_ok_model.
-
-(* what the checker's verdict on one snapshot means *)
-Theorem C19_snap_ok_reading : forall head xs sn, snap_ok head xs sn = true ->
-  s_items sn = RList xs /\ s_len sn = RNat (N.of_nat (length xs)) /\
-  s_gets sn = map RTerm xs /\ WF (s_triples sn) head xs.
-Proof. exact snap_ok_reading. Qed.
-Print Assumptions C19_snap_ok_reading.
-
-(* ... and WF unfolds to: for xs = [] no rdf:first/rdf:rest triple at all, otherwise
-   there are cells cs, as many as members, pairwise distinct, none rdf:nil, the first
-   one the head, such that the first/rest triples are exactly
-   (c_i first x_i), (c_i rest c_i+1), (c_last rest nil) *)
-Theorem C19_wf_check_reading : forall head xs T, wf_check head xs T = true ->
-  match xs with
-  | [] => forall t, In t T -> is_fr t = false
-  | _ => exists cs, length cs = length xs /\ NoDup cs /\ ~ In NIL cs /\ hd NIL cs = head /\
-                    seteq (filter is_fr T) (chainT (combine cs xs) NIL)
-  end.
-Proof. exact wf_check_sound. Qed.
-Print Assumptions C19_wf_check_reading.
-
-(* IndexError where the list raises it - for every index beyond len(c);
-   index = len(c) and negative indices are findings F3d / F3e *)
-Theorem C19_index_error_partial : forall s xs i, Inv s xs -> (Z.of_nat (length xs) < i)%Z ->
-  c_getitem (gr s) HEAD i = RExc IndexError /\
-  (forall v, c_setitem (gr s) HEAD i v = (gr s, RExc IndexError)) /\
-  c_delitem (gr s) HEAD i = (gr s, RExc IndexError).
-Proof. exact index_error. Qed.
-Print Assumptions C19_index_error_partial.
-
-(* ---- the unrestricted property fails: witnesses (replayed on rdflib, corpus/C19) ---- *)
-Definition refuted (n : N) (c : case) : Prop :=
-  wfb c = true /\ kf c = n /\ spec_ok c (model_obs c) = false.
-
-(* F3b: del c[0] on [1, 6] leaves the head cell without rdf:first *)
-Theorem C19_del_head_refuted : exists c, refuted 1 c.
-Proof. exists {| c_init := [1; 6]%N; c_noise := []; c_ops := [ODel 0] |}. repeat split; vm_compute; reflexivity. Qed.
-Print Assumptions C19_del_head_refuted.
-
-(* F3d: c[len(c)] raises KeyError, c[len(c)] = v writes (rdf:nil rdf:first v) *)
-Theorem C19_index_len_refuted : exists c, refuted 2 c.
-Proof. exists {| c_init := [1; 6]%N; c_noise := []; c_ops := [OGet 2; OSet 2 5%N] |}. repeat split; vm_compute; reflexivity. Qed.
-Print Assumptions C19_index_len_refuted.
-
-(* F3e: c[-1] is c[0]; del c[-1] links the head to itself, append then hangs *)
-Theorem C19_negative_index_refuted : exists c, refuted 3 c /\
-  exists sn, nth_error (model_obs c) 2 = Some sn /\ s_res sn = RHang.
-Proof.
-  exists {| c_init := [1; 6; 5]%N; c_noise := []; c_ops := [OGet (-1); ODel (-1); OAppend 1%N] |}.
-  split; [repeat split; vm_compute; reflexivity|]. eexists. split; vm_compute; reflexivity.
-Qed.
-Print Assumptions C19_negative_index_refuted.
-
-(* F3g: c += [] on an empty collection leaves (head rdf:rest rdf:nil) *)
-Theorem C19_iadd_empty_refuted : exists c, refuted 4 c.
-Proof. exists {| c_init := []; c_noise := []; c_ops := [OIadd []] |}. repeat split; vm_compute; reflexivity. Qed.
-Print Assumptions C19_iadd_empty_refuted.
-
-(* ---- reads on arbitrary graphs: cyclic, broken, forked chains ---- *)
-
-(* Graph.items carries a visited set: iteration, len, membership and indexing
-   terminate on EVERY graph (the model never runs out of its length g + 3 units
-   of fuel; pigeonhole on the visited set) *)
-Theorem C19_reads_terminate : forall g head i v,
-  c_iter g head <> RHang /\ c_len g head <> RHang /\ c_contains g head v <> RHang /\ c_getitem g head i <> RHang.
-Proof.
-  intros. repeat split; [apply iter_total|apply len_total|apply contains_total|apply getitem_total].
-Qed.
-Print Assumptions C19_reads_terminate.
-
-(* on a chain whose walk (first rest link, stopping at a falsy node like
-   Graph.items) revisits a node, list(c) and len(c) raise ValueError *)
-Theorem C19_cyclic_reads_raise : forall g head, cyclic_iter g head = true ->
-  c_iter g head = RExc ValueError /\ c_len g head = RExc ValueError.
-Proof. exact cyclic_reads_raise. Qed.
-Print Assumptions C19_cyclic_reads_raise.
-
-(* index() terminates when the rest links from the head do not loop ... *)
-Theorem C19_index_terminates_partial : forall g head v,
-  cyclic_rest g head = false -> c_index g head v <> RHang.
-Proof. exact index_terminates. Qed.
-Print Assumptions C19_index_terminates_partial.
-
-(* ... and does not otherwise (F3c): on the chain (h first 1) (h rest h), index() of
-   an absent item exhausts every amount of fuel, while len(c) raises *)
-Theorem C19_index_cyclic_refuted :
-  (forall fuel idx, index_f fuel loop_graph HEAD 12%N idx = RHang) /\ cyclic_rest loop_graph HEAD = true /\ c_len loop_graph HEAD = RExc ValueError.
-Proof. split; [exact index_loops|split; vm_compute; reflexivity]. Qed.
-Print Assumptions C19_index_cyclic_refuted.
-
-(* what the `collreads` suite evaluates: no read hangs, and list(c)/len(c) raise
-   on a cyclic chain - for every graph and every sequence of reads without
-   index() on a looping chain *)
-Theorem C19_reads_spec_ok_model : forall c, r_wfb c = true -> r_kf c = 0%N -> r_spec c (r_model c) = true.
-Proof. exact r_spec_model. Qed.
-Print Assumptions C19_reads_spec_ok_model.
-
-(* non-vacuity: a trigger-free history over falsy members and duplicates that
-   deletes the tail, a middle element and the only element, clears, appends
-   to the emptied collection and extends it *)
-Example C19_nonvacuous :
-  let c := {| c_init := [6; 5; 6; 7]%N; c_noise := [(1, 3, 30); (30, 4, 5)]%N;
-              c_ops := [ODel 3; ODel 1; OSet 1 5%N; OIndex 5%N; ODel 1; ODel 0; OAppend 7%N;
-                        OIadd [6; 6]%N; OGet 5; OClear; OIadd [14]%N; OContains 14%N; OIndex 1%N] |} in
-  wfb c = true /\ kf c = 0%N /\ spec_ok c (model_obs c) = true /\ length (model_obs c) = 13%nat.
-Proof. repeat split; vm_compute; reflexivity. Qed.
+From RV Require Import Collection.Model.
